@@ -95,6 +95,13 @@ def case_strategy(draw, allow_rle=False, allow_relabel=True):
         "matcher": None if it == "MATCHED_INSTANCE" else {"kind": "naive", "metric": mmetric, "thr": draw(gen.threshold(mmetric)), "m2o": False},
         "decision": dec,
     }
+    if it == "MATCHED_INSTANCE" and draw(st.integers(0, 3)) == 0:
+        # a matcher that is configured but has nothing to do for matched input (often with the decision metric
+        # and the strictest threshold, so that it "already enforced" more than the decision threshold asks for)
+        um = dec[0] if dec and draw(st.booleans()) else mmetric
+        strict = {"v": 0.0 if um == "ASSD" else 1.0}
+        case["matcher"] = {"kind": "naive", "metric": um, "thr": strict if draw(st.booleans()) else draw(gen.threshold(um)), "m2o": False}
+        case["force_matcher"] = True
     if rle is not None:
         case["rle"] = rle
         del case["pred"], case["ref"]
@@ -183,7 +190,7 @@ def resolve(case):
     lay = case.get("layout", "C")
     pred, ref = gen.with_layout(pred.astype(case["dtype"]), lay), gen.with_layout(ref.astype(case["dtype"]), lay)
     cfg = {"input": case["input"], "backend": case.get("backend"), "imetrics": case.get("imetrics", PM.METRICS), "gmetrics": case.get("gmetrics", []),
-           "flags": case.get("flags"), "handler": case.get("handler")}
+           "flags": case.get("flags"), "handler": case.get("handler"), "force_matcher": case.get("force_matcher")}
     pin = PM.model_instances(pred, case["input"], case.get("backend"))
     rin = PM.model_instances(ref, case["input"], case.get("backend"))
     if case.get("matcher"):
@@ -217,7 +224,9 @@ def check(case, stats):
         classes.append(f"instance_metrics={len(mets)}")
     if case.get("relabelled"):
         classes.append("wide_label_values")
-    if cfg.get("matcher"):
+    if cfg.get("force_matcher"):
+        classes.append("matched_input_with_an_idle_matcher")
+    elif cfg.get("matcher"):
         classes.append(f"mmetric={cfg['matcher']['metric']}")
         thr = cfg["matcher"]["thr"]
         if any(s == thr for s, _, _ in cands):
